@@ -94,6 +94,10 @@ macro_rules! int_zone {
                 black_box(&back);
                 let mut sb2 = StackBuf::new();
                 let _ = write!(sb2, "{:?}", t);
+                // formatter flags (width, fill, alignment, zero padding, sign, precision, alternate)
+                let mut sb3 = StackBuf::new();
+                let _ = write!(sb3, "{:5} {:<7} {:^9} {:*>8} {:05} {:+} {:.2} {:#} {:+09.3} {:#?} {:>4?}", t, t, t, t, t, t, t, t, t, t, t);
+                black_box(sb3.as_str().len());
                 black_box(t.cmp(&<$T>::MAX));
                 black_box(t == <$T>::MIN);
                 black_box(<$T>::default());
